@@ -22,7 +22,7 @@ HOSTILE_STRINGS = [
     "", " ", "a", "b", "ab", "ba", "abc", "aaa", "aab", "abab", '"', "\\", '\\"', "a\"b", " -> ", "~~", "++", "~~a~~", "++a++",
     "\n", "a\nb", "\t", "\r\n", "\x00", "\x01\x1f", "\x7f", "̶", "̟", "a̶b̟", "\x1b[31m", "\x1b[0m", "\x1b",
     "\U0001F600", "x\U0001F600y", "é", "日本", " ", "﻿", "1", "1.5", "0", "-1", "True", "False", "None", "null",
-    "true", "[]", "{}", "[1]", '{"a": 1}', ",", ":", "a,b", "a: b", "#", "- a", "'", "''", "`", "&amp;", "<a>", "]]>",
+    "true", "a\u2028b", "x\x85y", "p\x0bq", "f\x0cg", "s\x1ct", "p\u2029q", "c\rd", "[]", "{}", "[1]", '{"a": 1}', ",", ":", "a,b", "a: b", "#", "- a", "'", "''", "`", "&amp;", "<a>", "]]>",
 ]
 NUMERIC_LOOKING = {"1", "1.5", "0", "-1", "True", "False", "None", "null", "true", "2", "10", "7", "123456", "2.25"}
 
